@@ -1,6 +1,7 @@
 import FlytModel.Proofs.BatchSeq
 import FlytModel.Proofs.BatchConc
 import FlytModel.Proofs.BatchBridge
+import FlytModel.Proofs.BatchGated
 /-!
 # C09 — Stop-on-error halts the batch; unprocessed items are never reported as successes
 
@@ -153,25 +154,52 @@ theorem after_failure_only_committed_items_run {c : Cfg} {s s' : BState} (hr : R
   · exact (List.nodup_append.1 (inv_reachable hr).nodup).2.1
 
 /-- **The failing task's store step raises the flag and frees its worker**: afterwards at most `w - 1` tasks —
-    those already picked up by the other `w - 1` workers — are in flight, and only they can still start. -/
+    those already picked up by the other `w - 1` workers — are in flight, and only they can still start.
+    "Failing" = the task's `runExecWithRetries` returned an ERROR (program counter `.store r true`; batch.go raises
+    `shouldStop` under `if err != nil`), which `failed_task_meaning` below spells out in terms of the item's script —
+    NOT merely "the slot is an error Result" (see `error_result_value_does_not_stop`). -/
 theorem failing_item_raises_stop {c : Cfg} {s s1 : BState} {i : Nat} {r : Result} (hr : Reachable c s) (hstop : c.stop = true)
-    (hpc : pcOf s i = some (.store r)) (he : r.isError = true) (h : apply c s (.step i) = some s1) :
+    (hpc : pcOf s i = some (.store r true)) (h : apply c s (.step i) = some s1) :
     s1.shouldStop = true ∧ (ids s1).length + 1 ≤ c.w ∧ s1.slots = setSlot s.slots i r ∧
     ∀ s', Path c s1 s' → ∃ new, s'.log = new ++ s1.log ∧ ∀ j k, .start j k ∈ new → j ∈ ids s1 := by
-  obtain ⟨a, b, d⟩ := failing_store hr hstop hpc he h
+  obtain ⟨a, b, d⟩ := failing_store hr hstop hpc h
   refine ⟨a, by simpa [ids] using b, d, fun s' hp => ?_⟩
   obtain ⟨_, _, new, h3, h4⟩ := after_stop hp hstop a
   refine ⟨new, h3, fun j k hjk => ?_⟩
   obtain ⟨q, hq, _⟩ := h4 j k hjk
   exact List.mem_map.2 ⟨_, hq, rfl⟩
 
+/-- **What "the task failed" means, every schedule.** A task of a reachable state that is about to store `r` with the
+    flag `failed`: `r` is explained by the item's own script and events (`LoopEnd`); a failed task stores an ERROR
+    Result; and `failed = true` exactly when the item's retry loop was cut by cancellation before an attempt
+    `k < budget`, or all `budget ≥ 1` attempts failed and there is no custom fallback / the fallback failed too
+    (i.e. the last exec call was a `Spec.isFinalFailure`, or the loop was cancelled). -/
+theorem failed_task_meaning {c : Cfg} {s : BState} {i : Nat} {r : Result} {failed : Bool} (hr : Reachable c s)
+    (hpc : pcOf s i = some (.store r failed)) :
+    LoopEnd c s.cancelled (hist s) i r failed ∧ (failed = true → r.isError = true) ∧
+    (failed = true ↔
+      ((s.cancelled = true ∧ ∃ k, k < c.budget ∧ itemDones (hist s) i = List.range k ∧ AllErr c i k ∧
+          itemFbs (hist s) i = 0 ∧ r = newErrorResult (.ctx c.kind)) ∨
+       (0 < c.budget ∧ itemDones (hist s) i = List.range c.budget ∧ AllErr c i c.budget ∧
+          ((c.fb = .custom ∧ ∃ e', (c.fbOut i).res = .error e' ∧ r = newErrorResult (.user e')) ∨
+           (c.fb ≠ .custom ∧ ∃ e, (c.exec i (c.budget - 1)).res = .error e ∧ r = newErrorResult (.user e)))))) := by
+  have hl := store_pc_loopEnd (logInv_reachable hr) hpc
+  exact ⟨hl, fun hf => by subst hf; exact hl.failed_isError, hl.failed_iff⟩
+
+/-- **An error *Result* returned as a value (nil error) fills the slot but does not stop the batch** — in either
+    mode the store step of a task whose processing returned a value leaves `shouldStop` exactly as it was. -/
+theorem error_result_value_does_not_stop {c : Cfg} {s s1 : BState} {i : Nat} {r : Result}
+    (hpc : pcOf s i = some (.store r false)) (h : apply c s (.step i) = some s1) :
+    s1.shouldStop = s.shouldStop ∧ s1.slots = setSlot s.slots i r ∧ s1.log = s.log :=
+  value_store hpc h
+
 /-- … counted: after the failing task has stored its result, the items that still start an exec call are at most
     `w - 1` — at most one per other worker. -/
 theorem at_most_one_new_item_per_other_worker {c : Cfg} {s s1 s' : BState} {i : Nat} {r : Result} (hr : Reachable c s)
-    (hstop : c.stop = true) (hpc : pcOf s i = some (.store r)) (he : r.isError = true)
+    (hstop : c.stop = true) (hpc : pcOf s i = some (.store r true))
     (h : apply c s (.step i) = some s1) (hp : Path c s1 s') (new : List Obs) (hnew : s'.log = new ++ s1.log)
     (L : List Nat) (hL : L.Nodup) (hstarted : ∀ j ∈ L, ∃ k, .start j k ∈ new) : L.length + 1 ≤ c.w := by
-  obtain ⟨_, b, _, d⟩ := failing_item_raises_stop hr hstop hpc he h
+  obtain ⟨_, b, _, d⟩ := failing_item_raises_stop hr hstop hpc h
   obtain ⟨new', h3, h4⟩ := d s' hp
   have : new' = new := List.append_cancel_right (h3.symm.trans hnew)
   subst this
@@ -182,10 +210,10 @@ theorem at_most_one_new_item_per_other_worker {c : Cfg} {s s1 s' : BState} {i : 
 
 /-- **One worker (or sequential): no item after the failing one is executed at all.** -/
 theorem one_worker_nothing_runs_after_failure {c : Cfg} {s s1 s' : BState} {i : Nat} {r : Result} (hr : Reachable c s)
-    (hw : c.w = 1) (hstop : c.stop = true) (hpc : pcOf s i = some (.store r)) (he : r.isError = true)
+    (hw : c.w = 1) (hstop : c.stop = true) (hpc : pcOf s i = some (.store r true))
     (h : apply c s (.step i) = some s1) (hp : Path c s1 s') :
     ∃ new, s'.log = new ++ s1.log ∧ ∀ j k, .start j k ∉ new := by
-  obtain ⟨_, b, _, d⟩ := failing_item_raises_stop hr hstop hpc he h
+  obtain ⟨_, b, _, d⟩ := failing_item_raises_stop hr hstop hpc h
   obtain ⟨new, h3, h4⟩ := d s' hp
   refine ⟨new, h3, fun j k hjk => ?_⟩
   have := h4 j k hjk
@@ -226,23 +254,55 @@ theorem spec_slotMatches_holds {c : Cfg} {s : BState} (hr : Reachable c s) (hex 
     {i : Nat} {r : Result} (h : s.slots[i]? = some (some r)) : slotMatches c (hist s) i r = true :=
   reachable_slotMatches hr hex hb h
 
-/-
-FULL STATEMENT NOT PROVED (kept visible):
-  theorem spec_c09_holds_gated {c fuel ds sts} (h : simulate c fuel ds = some sts) (s ∈ sts) (s.posted) … :
-      Spec.c09 c (viewOf s items) = true
-i.e. `Spec.c09` including its ordering clause for the quiescent states of a *gated* run. What is missing is an
-analysis of `quiesce`'s scheduling policy (after a release the released task runs to completion before any `take`),
-which makes "failure handled" coincide with the next quiescent point. Proved instead: the clause for EVERY
-schedule in its `shouldStop`-anchored form (`after_failure_only_committed_items_run`, `failing_item_raises_stop`,
-`at_most_one_new_item_per_other_worker`), the full `Spec.c09` for the sequential families (`spec_c09_holds_seq`),
-and below the per-slot clause for every schedule plus the full predicate in continue mode.
--/
+/-- **Every schedule (not only gated ones).** `Spec.c09` on the LTS observation right after post: the per-slot clause
+    always, the whole predicate in continue mode. (The ordering clause in stop mode is NOT an invariant of all
+    schedules — see `exConcRace` below — it is proved for the gated schedules in `spec_c09_holds_gated`.) -/
 theorem spec_c09_holds_partial {c : Cfg} {s s' : BState} (items : List Val) (hr : Reachable c s) (hex : c.execS ≠ .absent)
     (hb : 0 < c.budget) (hw : apply c s .waitRet = some s') :
     ((List.range c.n).all fun i =>
         slotMatches c (viewOf s' items).events i ((viewOf s' items).slots.getD i default)) = true ∧
     (c.stop = false → Spec.c09 c (viewOf s' items) = true) :=
   Bridge.c09_viewOf_partial items hr hex hb hw
+
+/-! ### gated schedules (`Conc.simulate`, what the driver runs) -/
+
+/-- **Key lemma: the states the gated simulation visits are quiescent.** With enough fuel (`Conc.measure` of the
+    initial state; the driver's fuel is enough, `driver_fuel_is_enough`) every state of `simulate` — after start-up
+    and after each decision — has nothing internal left to do, and every task held by a worker is parked inside
+    its exec callback: none is at `stopCheck` / `ctxCheck` / `loopTop` / `store`. Every mode. -/
+theorem gated_states_quiescent {c : Cfg} {fuel : Nat} {ds : List Decision} {sts : List BState}
+    (hfuel : Conc.measure c (init c) ≤ fuel) (h : simulate c fuel ds = some sts) {s : BState} (hs : s ∈ sts) :
+    nextInternal c s = none ∧ ∀ i pc, pcOf s i = some pc → ∃ k, pc = .inExec k := by
+  obtain ⟨h1, h2⟩ := Gated.simulate_quiescent hfuel h s hs
+  exact ⟨h1, fun i pc hpc => Gated.quiescent_pc h2 hpc⟩
+
+/-- the fuel `Driver/BatchFam.lean` hands to `simulate` (`50 * (n + 2) * (budget + 2) + 100`) is enough -/
+theorem driver_fuel_is_enough (c : Cfg) : Conc.measure c (init c) ≤ 50 * (c.n + 2) * (c.budget + 2) + 100 :=
+  Gated.driver_fuel_adequate c
+
+/-- **Gated schedules, stop mode: no new item starts after a final failure.** In the log of every state of the gated
+    simulation, no `start j 0` event follows a `done i k` event that is a final failure of item `i`
+    (`Spec.isFinalFailure`: last attempt, failed, no successful fallback) — the released task runs to its store step,
+    raises `shouldStop` and returns before any other task leaves the queue; whatever is taken afterwards is stopped
+    at the stop check. Cancellation at any point included. -/
+theorem gated_no_new_item_after_final_failure {c : Cfg} {fuel : Nat} {ds : List Decision} {sts : List BState}
+    (hstop : c.stop = true) (hfuel : Conc.measure c (init c) ≤ fuel) (h : simulate c fuel ds = some sts)
+    {s : BState} (hs : s ∈ sts) (p : Nat) (hp : p < (hist s).length) {i k : Nat} (hev : (hist s)[p] = .done i k)
+    (hff : isFinalFailure c i k = true) : ∀ j, Obs.start j 0 ∉ (hist s).drop (p + 1) := by
+  intro j hj
+  have hq := (Gated.simulate_gated hstop hfuel h s hs).quiet
+  have := Bridge.qafter_drop _ _ _ hq p hp (by rw [hev]; exact hff) _ hj
+  simp [Gated.isStart0] at this
+
+/-- **Bridge (gated family `gbatch`) — the full predicate.** `Spec.c09` — the per-slot clause AND the ordering clause,
+    in both error-handling modes, with or without cancellation — holds of the model's observation (the LTS's own log
+    as the event list, as in `C06.spec_c06_holds` / `C11.spec_c11_holds`) in every state of the gated simulation in
+    which post has run; nodes with an exec function and a retry budget ≥ 1. -/
+theorem spec_c09_holds_gated {c : Cfg} {fuel : Nat} {ds : List Decision} {sts : List BState} (items : List Val)
+    (hfuel : Conc.measure c (init c) ≤ fuel) (h : simulate c fuel ds = some sts) (hex : c.execS ≠ .absent)
+    (hb : 0 < c.budget) {s : BState} (hs : s ∈ sts) (hp : s.posted = true) :
+    Spec.c09 c (viewOf s items) = true :=
+  Gated.c09_viewOf_gated items hfuel h hex hb hs hp
 
 def exConcRace : Cfg :=
   { n := 2, w := 2, cap := 4, stop := true, budget := 1, fb := .passThrough, execS := .any,
@@ -255,8 +315,8 @@ schedules of the LTS, and is not claimed: between the return of the failing exec
 which its task sets `shouldStop`, another worker may legitimately pass the stop check (the property text says "once
 an item has failed no further item is started *by the worker that observed it*"). The statement that holds for
 every schedule is `after_failure_only_committed_items_run` above (anchored at `shouldStop = true`); the driver
-evaluates `c09` on gated runs, where the failing task finishes before the next quiescent point. The schedule below
-is such an interleaving: item 1 starts after `done 0 0` was logged, before task 0 has stored its result.
+evaluates `c09` on gated runs, where the failing task finishes before the next quiescent point
+(`gated_no_new_item_after_final_failure`, `spec_c09_holds_gated`). The schedule below is a non-gated interleaving: item 1 starts after `done 0 0` was logged, before task 0 has stored its result.
 -/
 example : (do
     let s ← apply exConcRace (init exConcRace) .submit
@@ -284,7 +344,14 @@ example : ((simulate exConc 300 [.release 0, .release 1]).map fun sts =>
           ([some (newErrorResult (.user 5)), some (newResult (.tok 101)), some (newErrorResult (.fw .batchStopped)),
             some (newErrorResult (.fw .batchStopped))], true, [])] := by decide
 
--- the hypotheses of `failing_item_raises_stop`: task 0 is about to store an error result; its step raises the flag
+-- the hypotheses of `spec_c09_holds_gated` / `gated_no_new_item_after_final_failure` on this run: enough fuel (also with
+-- the driver's formula), post has run in the last state, and the log does contain a final failure followed by events
+example : Conc.measure exConc (init exConc) ≤ 300 ∧ exConc.stop = true := by decide
+example : ((simulate exConc 300 [.release 0, .release 1]).bind fun sts => sts.getLast?.map fun s =>
+      (s.posted, hist s, isFinalFailure exConc 0 0, Spec.c09 exConc (viewOf s []))) =
+    some (true, [.start 0 0, .start 1 0, .done 0 0, .done 1 0, .post], true, true) := by decide
+
+-- the hypotheses of `failing_item_raises_stop`: task 0 FAILED and is about to store its error; its step raises the flag
 example : (do
     let s ← apply exConc (init exConc) .submit
     let s ← apply exConc s .take
@@ -293,8 +360,31 @@ example : (do
     let s ← apply exConc s (.step 0)
     let s1 ← apply exConc s (.step 0)
     pure (pcOf s 0, s.shouldStop, s1.shouldStop, s1.slots)) =
-    some (some (.store (newErrorResult (.user 5))), false, true, [some (newErrorResult (.user 5)), none, none, none]) := by
+    some (some (.store (newErrorResult (.user 5)) true), false, true, [some (newErrorResult (.user 5)), none, none, none]) := by
   decide
 example : exConc.stop = true ∧ exConc.execS ≠ .absent ∧ 0 < exConc.budget := by decide
+
+/-- stop mode, Result-style exec function: item 0 RETURNS an error Result as a value (nil error) -/
+def exConcVal : Cfg :=
+  { n := 2, w := 1, cap := 2, stop := true, budget := 1, fb := .passThrough, execS := .res,
+    exec := fun i _ => if i = 0 then { res := .ok (.res Val.nil (some (.user 5))) } else { res := .ok (.tok (100 + i)) },
+    fbOut := fun _ => { res := .error 0 }, kind := .canceled }
+
+-- the hypotheses of `error_result_value_does_not_stop`: task 0 is about to store an error Result it got as a VALUE;
+-- the slot is an error, the flag stays down, and the gated run goes on to execute item 1
+example : (do
+    let s ← apply exConcVal (init exConcVal) .submit
+    let s ← apply exConcVal s .take
+    let s ← apply exConcVal s (.step 0); let s ← apply exConcVal s (.step 0); let s ← apply exConcVal s (.step 0)
+    let s ← apply exConcVal s (.ret 0)
+    let s1 ← apply exConcVal s (.step 0)
+    pure (pcOf s 0, (newErrorResult (.user 5)).isError, s1.shouldStop, s1.slots)) =
+    some (some (.store (newErrorResult (.user 5)) false), true, false, [some (newErrorResult (.user 5)), none]) := by
+  decide
+example : ((simulate exConcVal 300 [.release 0, .release 1]).map fun sts =>
+      sts.map fun s => (s.slots, s.shouldStop, parked s)) =
+    some [([none, none], false, [(0, 0)]),
+          ([some (newErrorResult (.user 5)), none], false, [(1, 0)]),
+          ([some (newErrorResult (.user 5)), some (newResult (.tok 101))], false, [])] := by decide
 
 end Flyt.Props.C09
